@@ -5,6 +5,7 @@ package spacepayloads
 import (
 	"errors"
 	"strconv"
+	"time"
 
 	libcrypto "github.com/libp2p/go-libp2p/core/crypto"
 
@@ -228,4 +229,41 @@ func VerifC13Repeat() {
 	_, err := ValidateSpaceHeader(second.SpaceHeaderWithId, nil, nil, nil)
 	rt.Assert(err != nil, "another-header-under-an-accepted-id-is-rejected-on-header-check")
 	rt.Reach("repeat")
+}
+
+// VerifC13Derive: the two parties of a one-to-one space, deriving at different instants (the engine's time.Now
+// advances with every call; the native replay sleeps nothing but the derivation reads no clock on a tree where the
+// property holds), and one party deriving again later, obtain byte-identical ACL root, settings root, header and
+// space id, and what they derive passes the create-payload validation.  The shared key agreement is a model
+// (same key for (a,B) and (b,A)); hashes are an injective interning of the bytes.
+func VerifC13Derive() {
+	cids := map[string]string{}
+	cid := func(data []byte) string {
+		s := string(data)
+		if v, ok := cids[s]; ok {
+			return v
+		}
+		v := "cid" + strconv.Itoa(len(cids))
+		cids[s] = v
+		return v
+	}
+	rt.Replace("github.com/anyproto/any-sync/util/cidutil.VerifyCid", func(data []byte, id string) bool { return cid(data) == id })
+	rt.Replace("github.com/anyproto/any-sync/util/cidutil.NewCidFromBytes", func(data []byte) (string, error) { return cid(data), nil })
+	rt.Replace("github.com/anyproto/any-sync/util/crypto.GenerateSharedKey", func(a crypto.PrivKey, b crypto.PubKey, path string) (crypto.PrivKey, error) {
+		return &vC13Priv{id: "shared"}, nil
+	})
+	a, b := &vC13Priv{id: "A"}, &vC13Priv{id: "B"}
+	typ := []string{SpaceTypeOneToOne, SpaceTypeOneToOneAny}[rt.Choose(2)]
+	pA, errA := StoragePayloadForOneToOneSpaceWithType(a, b.GetPublic(), typ)
+	time.Sleep(1100 * time.Millisecond) // native replay: the parties derive in different seconds (the engine's clock advances per reading)
+	pB, errB := StoragePayloadForOneToOneSpaceWithType(b, a.GetPublic(), typ)
+	time.Sleep(1100 * time.Millisecond)
+	pA2, errA2 := StoragePayloadForOneToOneSpaceWithType(a, b.GetPublic(), typ)
+	rt.Assert(errA == nil && errB == nil && errA2 == nil, "one-to-one-derivation-succeeds")
+	for _, p := range []spacestorage.SpaceStorageCreatePayload{pB, pA2} {
+		rt.Assert(p.AclWithId.Id == pA.AclWithId.Id && string(p.AclWithId.Payload) == string(pA.AclWithId.Payload), "derived-acl-root-identical")
+		rt.Assert(p.SpaceSettingsWithId.Id == pA.SpaceSettingsWithId.Id && string(p.SpaceSettingsWithId.RawChange) == string(pA.SpaceSettingsWithId.RawChange), "derived-settings-root-identical")
+		rt.Assert(p.SpaceHeaderWithId.Id == pA.SpaceHeaderWithId.Id && string(p.SpaceHeaderWithId.RawHeader) == string(pA.SpaceHeaderWithId.RawHeader), "derived-header-and-space-id-identical")
+	}
+	rt.Reach("derived")
 }
